@@ -241,3 +241,39 @@ Proof.
   rewrite Hall. unfold ind.
   rewrite (neq_eqb_false _ _ N0), (neq_eqb_false _ _ N1), (neq_eqb_false _ _ N2), (neq_eqb_false _ _ N3). lia.
 Qed.
+
+(* ---------- any assignment of the receivers, coinciding ones included ---------- *)
+(* every account's balance moves by exactly the shares addressed to it (the mint module keeps the rest) *)
+Lemma every_account_gets_its_shares acc p s y :
+  valid_params p -> ok_state acc s ->
+  let r := block_mint acc p s in
+  let e := r_emission r in
+  bal (m_bank (r_state r)) y
+  = bal (m_bank s) y
+    + ind (N.eqb y (a_mod acc)) (e - (staker_ratio p * e) / 100 - (dev_ratio p * e) / 100 - (prov_ratio p * e) / 100)
+    + ind (N.eqb y (a_fee acc)) ((staker_ratio p * e) / 100)
+    + ind (N.eqb y (a_dev acc)) ((dev_ratio p * e) / 100)
+    + ind (N.eqb y (a_stip acc)) ((prov_ratio p * e) / 100).
+Proof.
+  intros Hp Hs. cbv zeta.
+  destruct (block_mint_spec acc p s Hp Hs) as (_ & Hem & _ & _ & Hb & Hall & _).
+  destruct Hp as (Ht & Hd & Hsr & Hv & Hpr & Hsum & Hstip).
+  rewrite Hem. rewrite Hall. rewrite !share_floor by lia. reflexivity.
+Qed.
+
+(* the stipend routed to the developer-grants pool: that one account receives both shares *)
+Lemma split_when_stipend_is_dev_pool acc p s :
+  valid_params p -> ok_state acc s ->
+  a_stip acc = a_dev acc -> a_dev acc <> a_fee acc -> a_dev acc <> a_mod acc -> a_fee acc <> a_mod acc ->
+  let r := block_mint acc p s in
+  let e := r_emission r in
+  bal (m_bank (r_state r)) (a_dev acc) = bal (m_bank s) (a_dev acc) + (dev_ratio p * e) / 100 + (prov_ratio p * e) / 100 /\
+  bal (m_bank (r_state r)) (a_fee acc) = bal (m_bank s) (a_fee acc) + (staker_ratio p * e) / 100.
+Proof.
+  intros Hp Hs E N1 N2 N3. cbv zeta.
+  rewrite !(every_account_gets_its_shares acc p s _ Hp Hs). rewrite E. unfold ind.
+  rewrite !N.eqb_refl.
+  rewrite (neq_eqb_false (a_dev acc) (a_mod acc)), (neq_eqb_false (a_dev acc) (a_fee acc)),
+          (neq_eqb_false (a_fee acc) (a_mod acc)), (neq_eqb_false (a_fee acc) (a_dev acc)) by congruence.
+  split; lia.
+Qed.
